@@ -59,6 +59,13 @@ func Read(cfg *program.Config, device string) status {
 	if err := dec.Decode(&v); err != nil {
 		return status{}
 	}
+	for _, r := range []string{v.Approve.Result, v.Compare.Result} {
+		switch r {
+		case "", "OK", "FAILED", "DIFF", "UPTODATE":
+		default:
+			return status{}
+		}
+	}
 	return v
 }
 
